@@ -170,14 +170,20 @@ def run(tier, seed):
     shards = []
     info = {}
     if tier == 'quick':
-        plan = [('S45', ('root', 'input', 'output'), (True,)), ('S44', ('root',), (True, False)), ('Ssim', ('root',), (True,)), ('Sv2', ('root', 'input', 'output'), (True, False))]
+        plan = [('S45', ('root', 'input', 'output'), (True,)), ('S44', ('root',), (True, False)), ('Ssim', ('root',), (True,)), ('Sv2', ('root',), (True, False))]
     else:
         plan = [(s, ('root', 'input', 'output'), (True, False)) for s in ('S45', 'S44', 'Ssim', 'Sjson', 'Sv2', 'Sv0', 'Sempty')]
+    plan = plan + [('S45#cellruns3', ('root',), (True,)), ('S45#outruns2', ('root', 'output'), (True,)), ('S45#focus:source', ('root',), (True,)),
+                   ('S45#focus:outputs', ('root', 'output'), (True,)), ('S45#focus:meta', ('root',), (True,)), ('S45#focus:attachments', ('root', 'input'), (True,))]
+    if tier == 'quick':
+        plan = [(s, f, t) for s, f, t in plan if s != 'S45#cellruns3'] + [('S45#cellruns3', ('root',), (True,))]
     for sname, forms, trs in plan:
         _, d1 = M.depth1(sname)
         idx = list(range(len(d1)))
         if tier == 'quick' and sname in ('Ssim', 'S44'):
             idx = idx[::3]
+        if tier == 'quick' and sname == 'S45#cellruns3':
+            idx = idx[::2]
         info[sname] = '%d x %d edits x 3 strategies x %s x transients %s' % (len(idx), len(d1), '/'.join(forms), trs)
         for ch in chunked(idx, len(idx)):
             shards.append(('triples', sname, ch, forms, trs))
